@@ -1052,3 +1052,21 @@ def main(ctx):
                  [("ids",), ("intersect", 1.0, True), ("intersect", 1.0, False), ("bincount",), ("badids",)], h_do, h_modules, result_edits=True,
                  depth=ctx.pick(4, 5), check=h_check, state=lambda h: getattr(h, "__dict__", {}),
                  must_raise=lambda kind, op: op[0] == "badids")
+
+    # ------------------------------------------------ long arrays through lookup_id (mc/longarr.py)
+    from mc.longarr import tiled_elementwise, PERIOD
+
+    def sky_base():
+        t = np.arange(PERIOD, dtype="f8")
+        ra = (t * 137.50776405) % 360.0
+        dec = np.degrees(np.arcsin(np.clip(-1.0 + 2.0 * (t + 0.5) / PERIOD, -1, 1)))
+        ra[5], dec[5] = 0.0, 90.0
+        ra[6], dec[6] = 45.0, -90.0
+        ra[7], dec[7] = 360.0, 0.0
+        return ra, dec
+
+    hspecs = {}
+    for dpt in (1, 10, 20):
+        hh = htm.HTM(dpt)
+        hspecs["lookup_id(depth=%d)" % dpt] = (sky_base, (lambda ra, dec, h=hh: h.lookup_id(ra, dec)))
+    tiled_elementwise(ctx, "long-arrays", hspecs, ctx.pick((100000, 1000000), (65536, 100000, 1000000, 1048576, 2000000)))
